@@ -895,7 +895,9 @@ class FnAnalysis:
                 continue
             mine = self.subst(labels, cargv, st)
             if mine:
-                self.sink(kind, (line, target["name"], site), mine, detail)
+                # the closure body counts as part of this function: a sink reached through a call made inside it keeps
+                # that callee as its first hop (reviewed `via` entries name the callee, not the closure)
+                self.sink(kind, site if isinstance(site, tuple) else (line, target["name"], site), mine, detail)
         for (i, path), labels in sorted(summ.out.items(), key=lambda kv: len(kv[0][1])):
             if i - 1 >= len(cargv):
                 continue
